@@ -391,7 +391,36 @@ def run(repo, chk):
                            "the fitted curve must reproduce the points it was fitted to", expected="A - B*Q%d^C = H%d" % (i, i),
                            found="A=%s, B=%s, C=%s; residual %s" % (a_, b_, c_, sp.simplify(a_ - b_ * qi ** c_ - hi)))
     chk.expect(seen == {1, 2}, "R-C02-5", "1- and 2-point pump-curve formulas located", loc(gfn), found=sorted(seen))
-    chk.floor("R-C02-5", 8 + 4 + 6)
+    # R-C02-5c: the memoised coefficients belong to the curve's CURRENT points: the fit is re-used only while the points it was computed
+    # from are unchanged (the points of a curve can be re-assigned in place, Curve.points has a setter)
+    calc = [n for n in gfn.body if isinstance(n, ast.FunctionDef)]
+    cfn = calc[0]
+    cparam = cfn.args.args[0].arg if cfn.args.args else None
+    key_stores = [n for n in walk(cfn) if isinstance(n, ast.Assign) and isinstance(n.targets[0], ast.Attribute) and dotted(n.targets[0].value) == "self"
+                  and unparse(n.value) in ("%s.points" % cparam, "list(%s.points)" % cparam, "tuple(%s.points)" % cparam, "copy.deepcopy(%s.points)" % cparam)]
+    guards = [n for n in gfn.body if isinstance(n, ast.If) and any(call_name(c) == cfn.name for c in calls(ast.Module(body=n.body, type_ignores=[])))]
+    okc = False
+    why = "no guarded call of %s" % cfn.name
+    if guards and key_stores:
+        keyf = key_stores[0].targets[0].attr
+        t = guards[0].test
+        cmp_ = [c for c in ast.walk(t) if isinstance(c, ast.Compare) and isinstance(c.ops[0], ast.NotEq)
+                and {".points" in unparse(c.left), ".points" in unparse(c.comparators[0])} == {True, False} or
+                (isinstance(c, ast.Compare) and isinstance(c.ops[0], ast.NotEq) and ("self.%s" % keyf) in (unparse(c.left), unparse(c.comparators[0])))]
+        isor = isinstance(t, ast.BoolOp) and isinstance(t.op, ast.Or)
+        okc = bool(cmp_) and (isor or isinstance(t, ast.Compare)) and any(("self.%s" % keyf) in unparse(c) and ".points" in unparse(c) for c in cmp_)
+        why = unparse(t)
+    elif guards:
+        why = "%s does not record the points it was computed from; guard: %s" % (cfn.name, unparse(guards[0].test))
+    elif not guards and any(call_name(c) == cfn.name for c in calls(ast.Module(body=[b for b in gfn.body if not isinstance(b, ast.FunctionDef)], type_ignores=[]))):
+        okc, why = True, "recomputed on every call (no memo)"
+    chk.expect(okc, "R-C02-5", "get_head_curve_coefficients re-fits A, B, C whenever the curve's points differ from the points of the memoised fit", loc(gfn),
+               "a head pump must lie on the curve fitted to its CURRENT points: after `curve.points = [...]` a stale memo makes every later run use the old curve",
+               expected="recompute if self._curve_coeffs is None or curve.points != <points stored with the memo>", found=why)
+    psetter = repo.func(ELEM, "HeadPump.pump_curve_name", kind="setter")
+    chk.expect(any(isinstance(n, ast.Assign) and unparse(n.targets[0]) == "self._curve_coeffs" and const(n.value, 1) is None for n in walk(psetter)), "R-C02-5",
+               "assigning another curve to the pump (pump_curve_name setter) drops the memoised coefficients", loc(psetter))
+    chk.floor("R-C02-5", 8 + 4 + 6 + 2)
 
     # ---------------------------------------------------------------- R-C02-6 valves
     valve_ref = {
@@ -511,6 +540,7 @@ def run(repo, chk):
 
 _W = lambda name, old, new, rule, **kw: dict(name=name, file=CON, old=old, new=new, rule=rule, **kw)
 WITNESSES = [
+    dict(name="stale-pump-curve-memo", file=ELEM, old="if self._curve_coeffs is None or curve.points != self._coeffs_curve_points:", new="if self._curve_coeffs is None:", rule="R-C02-5"),
     _W("hw-drop-sign", "con = aml.Constraint(expr=-aml.sign(f)*k*aml.abs(f)**m.hw_exp", "con = aml.Constraint(expr=-k*aml.abs(f)**m.hw_exp", "R-C02-3"),
     _W("hw-swap-heads", "- aml.sign(f)*minor_k*f**m.hw_minor_exp + start_h - end_h)\n\n            m.approx", "- aml.sign(f)*minor_k*f**m.hw_minor_exp + end_h - start_h)\n\n            m.approx", "R-C02-2"),
     _W("closed-branch-open-law", "            if status == LinkStatus.Closed or link._is_isolated:\n                con = aml.Constraint(f)\n            else:\n                eps = 1e-5",
